@@ -76,7 +76,7 @@ func renameDoc(v any, names map[string]bool, suffix string) any {
 
 func genC13(t *rapid.T) any {
 	b := C13Batch{}
-	b.Scenario = rapid.SampledFrom([]string{"fresh-selectors-separate-documents", "fresh-selectors-separate-documents", "warm-selectors-separate-documents", "shared-document", "shared-document", "internal-parallelism", "path-selectors"}).Draw(t, "scenario")
+	b.Scenario = rapid.SampledFrom([]string{"fresh-selectors-separate-documents", "fresh-selectors-separate-documents", "warm-selectors-separate-documents", "shared-document", "shared-document", "internal-parallelism", "path-selectors", "same-query-text", "same-query-text"}).Draw(t, "scenario")
 	b.Procs = rapid.SampledFrom([]int{1, 2, 4, 16}).Draw(t, "procs")
 	b.Repeat = rapid.IntRange(1, 3).Draw(t, "repeat")
 	ng := rapid.IntRange(2, 8).Draw(t, "goroutines")
@@ -100,6 +100,9 @@ func genC13(t *rapid.T) any {
 			var only []string
 			if b.Scenario == "internal-parallelism" {
 				only = c13Parallel
+			}
+			if b.Scenario == "same-query-text" {
+				only = []string{"cte-union", "cte-union", "cte", "cte-twice", "union", "join", "join-unaliased", "derived-cte", "sel-sub", "exists", "group", "order-limit"}
 			}
 			if b.Shared {
 				sc = sharedSc
@@ -145,6 +148,12 @@ func genC13(t *rapid.T) any {
 			list = append(list, q)
 		}
 		b.G = append(b.G, list)
+	}
+	if b.Scenario == "same-query-text" {
+		// every goroutine runs the list of the first one (same texts, own copies of the documents)
+		for g := 1; g < len(b.G); g++ {
+			b.G[g] = append([]C13Q{}, b.G[0]...)
+		}
 	}
 	if b.Shared {
 		d := sharedDoc
@@ -355,7 +364,7 @@ func init() {
 			"constructs (or path selectors), released together by a barrier, each list repeated 1-3 times, GOMAXPROCS in {1,2,4,16}; scenarios: separate " +
 			"documents with selector texts never seen before in the process (column names carry a per-batch nonce), separate documents with warm " +
 			"selectors, one shared document read by all goroutines (fresh or warm names), internal parallelism (PARALLEL / HASH joins, ASYNC and " +
-			"SPINASYNC calls) inside concurrent queries, concurrent ExecReader calls. Oracle: no race report, no fatal error, no confirmed hang; every " +
+			"SPINASYNC calls) inside concurrent queries, concurrent ExecReader calls, and all goroutines building and running the same query texts (WITH + UNION, CTEs, joins, subqueries) at once. Oracle: no race report, no fatal error, no confirmed hang; every " +
 			"result equals the result of the same query run alone afterwards on a private copy (multiset where order is open); a shared document is " +
 			"unchanged. Non-trivial: every batch (>=2 goroutines overlap by construction of the barrier).",
 		Assumptions: []string{
